@@ -131,8 +131,9 @@ def run(prop, tier, seed, replay=None, rep=None, finish=True):
             m = dict(N=3, MaxCons=2, MaxChain=1) if tier == 'quick' else dict(N=3, MaxCons=3, MaxChain=2)
             core.gen_module(w, 'MCR', ['MC_Readers'], {
                 'c_TokKinds': core.Raw('{' + ', '.join(core.tla(x) for x in kinds) + '}'),
-                'c_CLabels': core.Raw('{' + ', '.join(core.tla(ch(x)) for x in ['NP', 'S']) + '}'),
-                'c_CEdges': core.Raw('{' + ', '.join(core.tla(ch(x)) for x in ['HD', '--']) + '}'),
+                # (XML-special characters also in category and edge labels: TIGER-XML attributes)
+                'c_CLabels': core.Raw('{' + ', '.join(core.tla(ch(x)) for x in ['NP', 'S', 'N"&<P']) + '}'),
+                'c_CEdges': core.Raw('{' + ', '.join(core.tla(ch(x)) for x in ['HD', '--', 'O"A']) + '}'),
                 'c_Jobs': core.Raw('{[fmt |-> "any", o |-> {}, sep |-> "-"]}'), 'c_BrTab': cfgc['brtab']})
             r2 = core.tlc(w, 'MCR', CFG_R % m, timeout=1800)
             core.tlc_ok(r2, 'MC_Readers(pool)')
